@@ -327,4 +327,11 @@ example : settleIx ⟨42, 40, 1⟩ .none = .error .notProvided := by rfl
 example : (run (10 ^ 20) ⟨0, 0, 0⟩ [.inc 60 (100000 * 10 ^ 20) (10 ^ 17) (2 * 10 ^ 20),
     .dec (100000 * 10 ^ 20) (10 ^ 17) (2 * 10 ^ 20) 7, .settle, .settle]) = ⟨0, 0, 57⟩ := by decide
 
+-- added by the hygiene audit: success witnesses for `roundUpDiv_some`, `increase_records_what_it_routes`, `estimate_spec`,
+-- and a backed state (recorded ≤ escrow) with a non-zero record for `settle_pays_recorded`
+example : roundUpDiv 64 7 2 = some 4 := by decide
+example : increaseCharge (10 ^ 20) 60 (100000 * 10 ^ 20) (10 ^ 17) (2 * 10 ^ 20) 5 = .ok (10, 50, 55) := by rfl
+example : estimateWithdrawal (10 ^ 20) 100 (100000 * 10 ^ 20) (10 ^ 17) (2 * 10 ^ 20) false = .ok 150 := by rfl
+example : settle ⟨30, 40, 1⟩ = some (⟨0, 10, 31⟩, 30) := by decide
+
 end Gmx.C32
